@@ -219,6 +219,31 @@ def c08_gen(rng, cid, tier):
     return case
 
 
+def c08_template(rng, cid):
+    """Template history: the iterator of a query that runs a USER PREDICATE for every result (query 1) is advanced once
+    or twice - suspended on a result - and then closed / dropped INSIDE a block (possibly a nested one), created inside
+    or outside it; a later block follows."""
+    ops = []
+    outside = rng.random() < 0.5
+    if outside:
+        ops += [('ic', 0), ('ic', 1)]
+    ops.append(('es', rng.choice('qr'), rng.randint(0, 1)))
+    if not outside:
+        ops += [('ic', 0), ('ic', 1)]
+    ops.append(('ia', 1, 0))
+    if rng.random() < 0.4:
+        ops.append(('ia', 1, 0))
+    nest = rng.random() < 0.4
+    if nest:
+        ops.append(('es', rng.choice('qr'), 0))
+    ops.append((rng.choice(('cl', 'drop')), 1))
+    if nest:
+        ops.append(('lv',))
+    ops += [('es', 'q', 0), ('lv',)]
+    ops.append((rng.choice(('lv', 'lvx')),))
+    return {'id': cid, 'ops': ops}
+
+
 def c08_sexp(case):
     conv = []
     for op in case['ops']:
@@ -260,6 +285,10 @@ def c08_impl(case):
         queries = []
 
         @predicate
+        def fine(o):
+            return o.a != 's'
+
+        @predicate
         def touchy(o):
             if o.a == 's':
                 raise ValueError('user predicate raises')
@@ -275,7 +304,10 @@ def c08_impl(case):
                 inner_q = an(entity(inner, inner.a > 0))
                 queries.append(an(entity(let(S, inner_q.evaluate()), x.a > 0)))     # a live result iterator as domain
             else:
-                queries.append(an(entity(let(S, objs), x.a > 0)))
+                # a query whose evaluation runs a USER PREDICATE for every result (the evaluation is inside the library's
+                # predicate machinery while the iterator is suspended)
+                v = let(S, objs)
+                queries.append(an(entity(v, fine(v))))
         ctxq = an(entity(x, x.a > 0))
     its = {}
     obs = []
@@ -369,7 +401,9 @@ def c08_impl(case):
 
 def c08(report, rng, tier, findings):
     n = n_cases(tier, 300, 4000)
-    cases = [c08_gen(rng, f'm{i}', tier) for i in range(n)]
+    import random as _random
+    cases = [c08_gen(rng, f'm{i}', tier) if i % 8 != 7 else c08_template(_random.Random(getattr(report, 'seed', 0) * 1009 + i), f'm{i}')
+             for i in range(n)]
     impl_res = pmap(c08_impl, cases)
     lines = run_driver([c08_sexp(c) for c in cases])
     report.rule = ("random well-bracketed histories (2-10 steps, thorough 16) of entering/leaving symbolic_mode / rule_mode blocks "
@@ -705,9 +739,12 @@ def c07(report, rng, tier, findings):
     n = n_cases(tier, 300, 4000)
     cases = []
     for i in range(n):
-        cfg = gen.Cfg(n_vars=(1, 1), n_objs=(3, 8), depth=2, subclasses=0.3, empty_domain=0.0)
+        long_ = i % 12 == 11       # a LONG one-shot domain (more than 20 elements), most of it pulled by an early partial evaluation
+        cfg = gen.Cfg(n_vars=(1, 1), n_objs=(24, 30) if long_ else (3, 8), depth=2, subclasses=0.3, empty_domain=0.0)
         case = gen.gen_case(rng, cfg, f'd{i}')
         r_c = rng.random()
+        if long_ and i % 24 == 11:
+            r_c = 0.0                # half of them without a condition
         if r_c < 0.15:
             case['cond'] = None                                  # condition-less query
         elif r_c < 0.35:
@@ -725,6 +762,9 @@ def c07(report, rng, tier, findings):
         case['vars'] = [(vid, cls, raw)]
         nh = rng.randint(1, 5 if tier == 'quick' else 8)
         case['hist'] = [rng.choice((0, 1, 1, 2, 3, -1)) for _ in range(nh)]
+        if long_:
+            case['hist'] = [rng.randint(21, 23)] + case['hist'][:3] + [rng.choice((1, 2, -1))]
+            report.count('long_domain_mostly_pulled_by_an_early_partial_evaluation')
         # every third case: the iterators of its partial evaluations are NOT closed (they stay suspended while the later
         # evaluations run; never resumed) - chosen by position, not by the generator's random stream
         case['hold'] = i % 3 == 0
